@@ -20,6 +20,7 @@ import ScalesModel.Adapter.KafkaCodec
 import ScalesModel.Adapter.Varz
 import ScalesModel.Adapter.Proxy
 import ScalesModel.Adapter.Uri
+import ScalesModel.Adapter.TimerQueue
 open Scales
 
 def components : List Comp := [
@@ -37,7 +38,8 @@ def components : List Comp := [
   ⟨"kafkacodec", Scales.Kafka.comp.run⟩,
   ⟨"varz", Scales.Varz.comp.run⟩,
   ⟨"proxy", Scales.Proxy.comp.run⟩,
-  ⟨"uri", Scales.Uri.comp.run⟩
+  ⟨"uri", Scales.Uri.comp.run⟩,
+  ⟨"timerq", Scales.TimerQ.comp.run⟩
 ]
 
 structure CaseAcc where
